@@ -197,13 +197,17 @@ def span_sets(N, maxspans):
     return out
 
 
-def gen(N, operands, unaries, binops, maxspans=1, funcs=(), bare_single=False):
+def gen(N, operands, unaries, binops, maxspans=1, funcs=(), bare_single=False, first=None):
     """token lists: N operands, a unary prefix from `unaries` on each, all operator choices, every set of
     <= maxspans bracket spans (single-operand spans only as function applications); each span is either a
     plain bracket or, if funcs, also a function application"""
     ss = span_sets(N, maxspans)
     for ops in itertools.product(operands, repeat=N):
+        if first is not None and ops[0] is not operands[first[0]]:
+            continue            # `first` = (index of the first operand, index of its unary prefix): one slice of the family
         for us in itertools.product(unaries, repeat=N):
+            if first is not None and us[0] is not unaries[first[1]]:
+                continue
             for bs in itertools.product(binops, repeat=N - 1):
                 for spans in ss:
                     heads_options = []
@@ -401,6 +405,35 @@ FUNC_POINTS = {
 }
 
 
+def _slice(task):
+    """one slice (fixed first operand and first unary prefix) of one family: generated and checked in the worker"""
+    specs, nospace, first = task
+    st = collections.Counter()
+    V = common.Violations(keep=3)
+    sample = None
+    n = 0
+    buf = []
+
+    def flush():
+        s2, vr = _prep(buf)
+        st.update(s2)
+        V.merge(vr)
+        del buf[:]
+    for (N, operands, unaries, binops, maxspans, funcs) in specs:
+        if first[0] >= len(operands) or first[1] >= len(unaries):
+            continue
+        for t in gen(N, operands, unaries, binops, maxspans, funcs, first=first):
+            n += 1
+            if sample is None and n % 97 == 0:
+                sample = " ".join(t)
+            buf.append((t, nospace))
+            if len(buf) >= 2000:
+                flush()
+    if buf:
+        flush()
+    return dict(st), V.records(), n, sample
+
+
 def run(ctx):
     six = [["2"], ["3"], ["0.5"], ["pi"], ["n"], ["x"]]
     more = six + [["7"], ["1.5e1"], ["1+2j"], ["A", "[", "1", "]"], ["A", "[", "n", "-", "1", "]"]]
@@ -408,37 +441,42 @@ def run(ctx):
     un2 = [[], ["-"], ["+"], ["-", "-"], ["+", "-"]]
     seedrot = ctx.seed % len(FUNCS)
     f_q = [FUNCS[seedrot], FUNCS[(seedrot + 7) % len(FUNCS)]]
-    jobs = []   # (label, generator, nospace?)
+    jobs = []   # (label, [gen argument tuples], nospace?)
+    G_ = lambda N, operands, unaries, maxspans=1, funcs=(): (N, operands, unaries, BINOPS, maxspans, tuple(funcs))
     if ctx.quick:
-        jobs.append(("N<=3 over 6 operands, optional '-', 1 bracket span", itertools.chain(*(gen(N, six, un1, BINOPS, 1) for N in (1, 2, 3))), False))
-        jobs.append(("N<=2 over 11 operands, stacked signs, 1 span, 2 functions at every span, also without blanks", itertools.chain(*(gen(N, more, un2, BINOPS, 1, f_q) for N in (1, 2))), True))
-        jobs.append(("N=3 over {2,0.5,x}, 2 functions at every span", gen(3, [["2"], ["0.5"], ["x"]], un1, BINOPS, 1, f_q), False))
+        jobs.append(("N<=3 over 6 operands, optional '-', 1 bracket span", [G_(N, six, un1) for N in (1, 2, 3)], False))
+        jobs.append(("N<=2 over 11 operands, stacked signs, 1 span, 2 functions at every span, also without blanks", [G_(N, more, un2, 1, f_q) for N in (1, 2)], True))
+        jobs.append(("N=3 over {2,0.5,x}, 2 functions at every span", [G_(3, [["2"], ["0.5"], ["x"]], un1, 1, f_q)], False))
         litlen = 5
     else:
-        jobs.append(("N<=3 over 11 operands, optional '-', 1 span, also without blanks", itertools.chain(*(gen(N, more, un1, BINOPS, 1) for N in (1, 2, 3))), True))
-        jobs.append(("N=4 over {2,3,0.5,x}, optional '-', <=2 spans", gen(4, [["2"], ["3"], ["0.5"], ["x"]], un1, BINOPS, 2), False))
-        jobs.append(("N<=2 over 11 operands, stacked signs, all 15 functions at every span, also without blanks", itertools.chain(*(gen(N, more, un2, BINOPS, 1, FUNCS) for N in (1, 2))), True))
-        jobs.append(("N=3 over 6 operands, 2 spans, 4 functions", gen(3, six, un1, BINOPS, 2, FUNCS[:2] + f_q), False))
+        jobs.append(("N<=3 over 11 operands, optional '-', 1 span, also without blanks", [G_(N, more, un1) for N in (1, 2, 3)], True))
+        jobs.append(("N=4 over {2,3,0.5,x}, optional '-', 1 span", [G_(4, [["2"], ["3"], ["0.5"], ["x"]], un1, 1)], False))
+        jobs.append(("N=3 over {2,3,0.5,x}, optional '-', <=2 spans", [G_(3, [["2"], ["3"], ["0.5"], ["x"]], un1, 2)], False))
+        jobs.append(("N<=2 over 11 operands, stacked signs, all 15 functions at every span, also without blanks", [G_(N, more, un2, 1, FUNCS) for N in (1, 2)], True))
+        jobs.append(("N=3 over 6 operands, 1 span, 4 functions", [G_(3, six, un1, 1, FUNCS[:2] + f_q)], False))
         litlen = 7
     stats = collections.Counter()
     V = common.Violations(keep=8)
     bounds = []
     samples = []
-    for label, g, nospace in jobs:
-        items = [(t, nospace) for t in g]
-        items = common.shard(items, ctx.seed)
-        chunks = [items[i:i + 2000] for i in range(0, len(items), 2000)]
-        res = pool.pmap(_prep, chunks, chunk=1, timeout=1800)
+    for label, specs, nospace in jobs:
+        nop = max(len(sp[1]) for sp in specs)
+        nun = max(len(sp[2]) for sp in specs)
+        tasks = common.shard([(specs, nospace, (a, b)) for a in range(nop) for b in range(nun)], ctx.seed)
+        res = pool.pmap(_slice, tasks, chunk=1, timeout=7200)
         n0 = stats["checked"]
+        ntok = 0
         for r in res:
             if r == "TIMEOUT":
                 V.add("C03/no-outcome", {"text": "chunk timeout"}, "timeout")
                 continue
-            st, vr = r
+            st, vr, n, smp = r
             stats.update(st)
             V.merge(vr)
-        bounds.append({"family": label, "token_strings": len(items), "in_domain_checked": stats["checked"] - n0})
-        samples.extend(" ".join(t) for t, _ in common.sample(items, 2))
+            ntok += n
+            if smp and len(samples) < 12:
+                samples.append(smp)
+        bounds.append({"family": label, "token_strings": ntok, "in_domain_checked": stats["checked"] - n0})
     # (b) literals
     lits = literal_strings(litlen)
     chunks = [lits[i:i + 1000] for i in range(0, len(lits), 1000)]
